@@ -234,6 +234,9 @@ def run_state(spec, tier, seed, res):
                      ("vector.zip", lambda: vector.zip({"x": [[1.0]], "y": [[2.0]]})), ("vector.zip-invalid", lambda: vector.zip({"x": [1.0]})),
                      ("vector.Array", lambda: vector.Array([{"x": 1.0, "y": 2.0}])), ("vector.Array-invalid", lambda: vector.Array([{"x": 1.0}])),
                      ("repr", lambda: repr(vector.array({"x": [1.0, 2.0, 3.0], "y": [2.0, 3.0, 4.0]}))),
+                     ("repr-obj", lambda: repr(vector.obj(pt=1.0, phi=2.0, eta=0.5, mass=0.1))),
+                     ("str-awkward", lambda: str(vector.zip({"x": [[1.0], []], "y": [[2.0], []]}))),
+                     ("show-awkward", lambda: vector.zip({"x": [[1.0], []], "y": [[2.0], []]}).tolist()),
                      ("ak.sum", lambda: __import__("awkward").sum(vector.zip({"x": [[1.0], []], "y": [[2.0], []]}), axis=1)),
                      ("numpy.sum", lambda: numpy.sum(vector.array({"x": [1.0], "y": [2.0]})))):
         bracket(label, "constructor", f)
@@ -501,6 +504,21 @@ def run_threads(spec, tier, seed, res):
     for i, (a, b) in enumerate(zip(sequential, again)):
         if a != b:
             res.violation("C20/sequential-rerun-differs", {"call": calls[i][0]})
+    # purity under history: the same calls on *freshly built* operands (new objects, possibly recycled ids), after the
+    # first list and its results were dropped, give bit-identical results (catches memoisation keyed by identity)
+    import gc
+
+    old_ids = [id(f) for _, f in calls]
+    calls2 = None
+    del calls
+    gc.collect()
+    calls = build_call_list(seed + spec["rep"], K)
+    rebuilt = [fingerprint(run_one(f)) for _, f in calls]
+    for i, (a, b) in enumerate(zip(sequential, rebuilt)):
+        res.evaluations += 1
+        if a != b:
+            res.violation("C20/result-depends-on-call-history-or-object-identity", {"call": calls[i][0], "first": repr(a)[:160], "rebuilt": repr(b)[:160]})
+    res.cell("history-independence", mode, spec["rep"])
     # ---- instrumentation: intervals per dispatch, yield injection inside vector frames
     intervals = []  # (thread id, module, t_enter, t_exit), appended under the GIL (list.append is atomic)
 
